@@ -201,6 +201,18 @@ def requests (sys : Sys P) (fuel : Nat) : St P → List (Node P) → Option (Lis
       | none => none
       | some (rs, s'') => some (r :: rs, s'')
 
+/-- a sequence of top-level requests during which the armed faults change: every step runs under
+    its own system (same rules, its own armed set); errors do not stop the sequence -/
+def requestsF (fuel : Nat) : St P → List (Sys P × Node P) → Option (List Res × St P)
+  | s, [] => some ([], s)
+  | s, st :: sts =>
+    match request st.1 fuel s st.2 with
+    | none => none
+    | some (r, _, s') =>
+      match requestsF fuel s' sts with
+      | none => none
+      | some (rs, s'') => some (r :: rs, s'')
+
 /-- the nodes an expression reads -/
 def refs : Expr P → List (Node P)
   | .const _ => []
